@@ -3,10 +3,32 @@ import json
 import enc
 import gen
 import sweep
+import directed
 
 
 def run_cases(ctx, cases, want, judge, rule, kf_fn=None, exhaustive=False, extra=None):
     """judge(row) -> failure text or None, evaluated on every case (row has impl/model/dec/...)."""
+    # change-directed search: aim extra cases at table cells / functions that differ from the validated baseline
+    ch = directed.changes()
+    extra_note = ''
+    if ch['versions']:
+        vs = sorted(ch['versions'])
+        extra_cases = gen.boundary_cases(ctx.rng, versions=vs, deltas=(-1, 0, 1), request_version=(False, True), micro_values=(None,))
+        extra_cases += gen.boundary_cases(ctx.rng, versions=vs, deltas=(0,), request_version=(True,), mask=None, boost=True)
+        for v in vs:
+            for lv in gen.levels_of(v):
+                for mk in range(4 if v < 1 else 8):
+                    c = {'content': gen.content_of(ctx.rng, 4 if v >= -1 else 1, 3), 'version': enc.vname(v), 'mask': mk, 'boost_error': False}
+                    if lv:
+                        c['error'] = lv
+                    extra_cases.append(c)
+        cases = list(cases) + [gen.strip(c) for c in extra_cases]
+        extra_note = '; %d extra cases directed at changed table cells %s' % (len(extra_cases), ch['cells'][:6])
+    if ch['functions']:
+        more = [enc.random_case(ctx.rng, max_len=ctx.rng.choice([20, 60, 300])) for _ in range(1500)]
+        more += [gen.strip(c) for c in gen.boundary_cases(ctx.rng, versions=[-3, -2, -1, 0, 1, 2, 9, 10, 26, 27, 40], deltas=(-1, 0, 1))]
+        cases = list(cases) + more
+        extra_note += '; %d extra cases because functions changed: %s' % (len(more), ch['functions'][:8])
     sw = sweep.Sweep(cases, want=want).run()
     failures, samples = [], []
     distinct = set()
@@ -31,7 +53,7 @@ def run_cases(ctx, cases, want, judge, rule, kf_fn=None, exhaustive=False, extra
     return {'failures': failures, 'correspondence_broken': corr, 'correspondence_details': sw.corr[:10],
             'evaluations': len(sw.rows), 'distinct_nontrivial': len(distinct), 'rule': rule, 'samples': samples,
             'distribution': dist, 'exhaustive': exhaustive,
-            'searched': '%d generated cases evaluated with the extracted specification oracles' % len(sw.rows)}
+            'searched': '%d generated cases evaluated with the extracted specification oracles%s' % (len(sw.rows), extra_note)}
 
 
 def replay_case(rec, want, judge):
